@@ -168,7 +168,7 @@ def judge(ctx: core.Ctx, case: dict[str, Any]) -> None:
     o = drv.parse_and_render(env(), src, data, use_async=case.get("async", False))
     if not o.ok:
         ctx.evaluations += 1
-        ctx.violation(f"raises-{o.err_class}:{sig}", f"{src!r:.300} raised {o.err_class}: {str(o.exc)[:100]}")
+        ctx.violation(f"raises-{o.err_class}:{sig}", f"{src!r:.300} raised {o.err_class}: {drv.safe_str(o.exc)[:100]}")
         return
     if o.value != exp:
         ctx.evaluations += 1
